@@ -283,7 +283,13 @@ def run(tier, seed):
                         fs = F.edge_facts(b_.id, s_)
                         if M.find_fact(("ult", length, 128), fs)[0] is not None or M.find_fact(("ule", length, 127), fs)[0] is not None:
                             cut.add((b_.id, s_))
-                bad = [r for r in rets(mi) if r.block.id != c.block.id and F.reaches_avoiding(0, r.block.id, cut)]
+                # (only ways round the test that end in SUCCESS matter: a failed initialisation extracts nothing)
+                from ..rules import success_edges
+                bad = []
+                for v_, pb_, b_ in success_edges(F, mi):
+                    tgt = pb_ if pb_ is not None else b_
+                    if tgt != c.block.id and (tgt == 0 or F.reaches_avoiding(0, tgt, cut)):
+                        bad.append(tgt)
                 rep.check(rid, not bad, "the envelope test is skipped only for length < 128", c.where(),
                           None if not bad else "a member of 128 bytes or more can bypass the envelope test: its MacBinary header would be extracted as file contents", function=mi.cname, obj="threshold")
         # ---- R7b what counts as an envelope --------------------------------------------------------------------------------------
@@ -302,6 +308,8 @@ def run(tier, seed):
             # the memcmp length is the name-length byte
             Mi = Matcher(ih)
             for c in ih.calls("memcmp"):
+                if not any(Mi.match(fname, a_, {}) is not None for a_ in c.ops[:2]):
+                    continue            # some other comparison (e.g. a block compared with zeros), not the one of the names
                 rep.check(rid, Mi.match(nlen, c.ops[2], {}) is not None, "the names are compared over the envelope's name length", c.where(), None, function=ih.cname, obj="memcmp-len")
 
         # ---- R9 parent directories ---------------------------------------------------------------------------------------------
